@@ -617,27 +617,32 @@ class Name:
         """
         visited = set()
         self.name = b""
+        # The labels are collected and joined once: appending each label to
+        # the name as it is read copies the whole name every time, which is
+        # quadratic in the length of a name that compression pointers can
+        # make far longer than the message itself.
+        labels = []
         off = 0
-        while 1:
-            l = ord(readPrecisely(strio, 1))
-            if l == 0:
-                if off > 0:
-                    strio.seek(off)
-                return
-            if (l >> 6) == 3:
-                new_off = (l & 63) << 8 | ord(readPrecisely(strio, 1))
-                if new_off in visited:
-                    raise ValueError("Compression loop in encoded name")
-                visited.add(new_off)
-                if off == 0:
-                    off = strio.tell()
-                strio.seek(new_off)
-                continue
-            label = readPrecisely(strio, l)
-            if self.name == b"":
-                self.name = label
-            else:
-                self.name = self.name + b"." + label
+        try:
+            while 1:
+                l = ord(readPrecisely(strio, 1))
+                if l == 0:
+                    if off > 0:
+                        strio.seek(off)
+                    return
+                if (l >> 6) == 3:
+                    new_off = (l & 63) << 8 | ord(readPrecisely(strio, 1))
+                    if new_off in visited:
+                        raise ValueError("Compression loop in encoded name")
+                    visited.add(new_off)
+                    if off == 0:
+                        off = strio.tell()
+                    strio.seek(new_off)
+                    continue
+                labels.append(readPrecisely(strio, l))
+        finally:
+            # Also on EOFError / ValueError: the labels read so far, as before.
+            self.name = b".".join(labels)
 
     def __eq__(self, other: object) -> bool:
         if isinstance(other, Name):
